@@ -496,8 +496,32 @@ func reasonConstants(c *Ctx, rule string) {
 		want              string
 		guard             string
 	}
+	// small helpers a refactoring may inline into their only caller: the close call is then looked for there
+	hosts := map[string]string{"sio.serverSocket.onDisconnect": "serverSocket.onPacket", "sio.clientSocket.onDisconnect": "clientSocket.onPacket",
+		"eio.serverSocket.Close": "", "eio.clientSocket.Close": ""}
 	check := func(s site) {
-		top := p.Fn(s.short, s.fn)
+		top := p.FnOpt(s.short, s.fn)
+		if top == nil {
+			if h := hosts[s.short+"."+s.fn]; h != "" {
+				top = p.Fn(s.short, h)
+			} else {
+				top = p.Fn(s.short, s.fn) // anchor gone: undecided
+			}
+			// in the host only the call carrying this very reason is this site's
+			n := 0
+			for _, f := range WithAnons(top) {
+				for _, cs := range CallsTo(Calls(f), s.callee) {
+					if Term(cs.Arg(s.arg)) == s.want {
+						n++
+						c.Ob(rule, s.short+"."+s.fn+"→"+shortCallee(cs.Name)+"("+s.want+")", cs.Pos(), true, "")
+					}
+				}
+			}
+			if n == 0 {
+				c.Ob(rule, s.short+"."+s.fn+"→"+s.want, top.Pos(), false, "no close call with this cause found in "+s.fn+" or the function it was inlined into")
+			}
+			return
+		}
 		n := 0
 		for _, f := range WithAnons(top) {
 			for _, cs := range CallsTo(Calls(f), s.callee) {
